@@ -2,6 +2,8 @@
    Only statements; proofs in Proofs/DirectProofs.v; model in Model/Direct.v
    (WHERE = Model/Bridge.v where_true, expression items = Model/ExprEval.v / Bridge.v by path). *)
 From SV Require Import Model.Direct Proofs.DirectProofs Model.NestedPath Proofs.NestedPathProofs.
+From SV Require Import Model.ResultChan Spec.ResultChanSpec Proofs.ResultChanProofs.
+From Coq Require Import Sorted.
 
 Theorem C05_direct_where_iff : forall q row r,
   direct q row = DRow r <-> (where_ok q row = Some true /\ project q row = Some r).
@@ -249,3 +251,80 @@ Example C05_dotted_key_unresolved :
   nested_field (JMap [(d, JMap [(kl, JS (VNum 7))])]) (d ++ [91;39] ++ kl ++ [39;93])%N = NMissing /\
   np_get (JMap [(d, JMap [(kl, JS (VNum 7))])]) [PField d; PKey kl] = Some (JS (VNum 7)).
 Proof. vm_compute. split; reflexivity. Qed.
+
+(* ================= the result channel (Model/ResultChan.v: sendResultNonBlocking + handleResultChannelBackpressure) =================
+   A bounded FIFO of batches with "the oldest batch makes room" when it is full.  A schedule is any list of
+   offers by the consumer goroutine (RSend: sent, or the oldest batch evicted; RLose: the new batch dropped,
+   possible only under a race with a reader) and receives by a reader (RRecv).  rc_seen = what the reader
+   has got once it has drained the channel; rc_offered = the batches in emission order. *)
+
+(* for every capacity and every schedule the reader gets a subsequence of the emission order: rows may
+   be missing (backpressure), nothing overtakes, nothing comes twice, nothing is invented *)
+Theorem C05_result_channel_order : forall cap ops,
+  subseq (concat (rc_seen (rc_run false cap ops))) (concat (rc_offered ops)).
+Proof. intros cap ops. rewrite <- (rc_sent_is_offered false cap ops). apply rc_order. Qed.
+Print Assumptions C05_result_channel_order.
+
+(* ... in terms of ids that increase along the emission order (what the driver's rows carry) *)
+Theorem C05_result_channel_increasing : forall cap ops,
+  StronglySorted Z.lt (concat (rc_offered ops)) ->
+  StronglySorted Z.lt (concat (rc_seen (rc_run false cap ops))).
+Proof. exact rc_increasing. Qed.
+Print Assumptions C05_result_channel_increasing.
+
+Theorem C05_result_channel_no_duplicate : forall cap ops,
+  NoDup (concat (rc_offered ops)) -> NoDup (concat (rc_seen (rc_run false cap ops))).
+Proof. exact rc_no_duplicate. Qed.
+Print Assumptions C05_result_channel_no_duplicate.
+
+(* nobody reads while n batches are emitted: the channel then holds exactly the newest min(cap, n)
+   batches -- what is missing was evicted at the old end, one batch per new batch *)
+Theorem C05_result_channel_drop_oldest : forall cap bs,
+  rc_seen (rc_run false cap (map RSend bs)) = lastn cap bs.
+Proof. exact rc_quiet. Qed.
+Print Assumptions C05_result_channel_drop_oldest.
+
+Theorem C05_result_channel_newest_kept : forall cap s b, (0 < cap)%nat ->
+  exists front, rc_chan (rc_step false cap s (RSend b)) = front ++ [b].
+Proof. exact rc_newest_kept. Qed.
+Print Assumptions C05_result_channel_newest_kept.
+
+(* the executable checkers the driver applies to the REAL channel: rc_check decides "is a subsequence
+   of the emission order", rc_suffix decides "is the newest min(cap, n) ids"; every model run passes *)
+Theorem C05_rc_check_iff : forall sent seen, rc_check sent seen = RCOk <-> subseq seen sent.
+Proof. exact rc_check_iff. Qed.
+Print Assumptions C05_rc_check_iff.
+
+Theorem C05_rc_suffix_iff : forall cap sent seen, rc_suffix cap sent seen = true <-> seen = lastn cap sent.
+Proof. exact rc_suffix_iff. Qed.
+Print Assumptions C05_rc_suffix_iff.
+
+Theorem C05_result_channel_passes_checker : forall cap ops,
+  rc_check (concat (rc_offered ops)) (concat (rc_seen (rc_run false cap ops))) = RCOk.
+Proof. exact rc_model_passes_check. Qed.
+Print Assumptions C05_result_channel_passes_checker.
+
+Theorem C05_result_channel_passes_suffix : forall cap ids,
+  rc_suffix cap ids (concat (rc_seen (rc_run false cap (map RSend (map (fun x => [x]) ids))))) = true.
+Proof. exact rc_model_passes_suffix. Qed.
+Print Assumptions C05_result_channel_passes_suffix.
+
+(* non-vacuity: capacity 2, five one-row results, a reader that takes one batch after the third:
+   3 evicts 1, the reader gets 2, 4 fits, 5 evicts 3; the reader ends up with 2, 4, 5 *)
+Example C05_result_channel_example :
+  let ops := [RSend [1]; RSend [2]; RSend [3]; RRecv; RSend [4]; RSend [5]]%Z in
+  rc_read (rc_run false 2 ops) = [[2]]%Z /\ rc_chan (rc_run false 2 ops) = [[4]; [5]]%Z /\
+  rc_check [1; 2; 3; 4; 5]%Z (concat (rc_seen (rc_run false 2 ops))) = RCOk /\
+  concat (rc_seen (rc_run false 2 (map RSend [[1]; [2]; [3]; [4]; [5]]%Z))) = [4; 5]%Z /\
+  rc_suffix 2 [1; 2; 3; 4; 5]%Z [4; 5]%Z = true /\ rc_suffix 2 [1; 2; 3; 4; 5]%Z [3; 5]%Z = false.
+Proof. vm_compute. repeat split; reflexivity. Qed.
+
+(* ... and "dropped, not re-queued" is needed: if the evicted batch is put in front of the new one and
+   the merged batch enqueued at the tail (merge = true; inside the merged batch the old rows do come
+   first), the reader gets row 1 after row 2: capacity 2, three results, nobody reading *)
+Example C05_merge_evicted_reorders :
+  let ops := [RSend [1]; RSend [2]; RSend [3]]%Z in
+  concat (rc_seen (rc_run true 2 ops)) = [2; 1; 3]%Z /\
+  rc_check [1; 2; 3]%Z (concat (rc_seen (rc_run true 2 ops))) = RCOrder 1 2 /\
+  concat (rc_seen (rc_run false 2 ops)) = [2; 3]%Z.
+Proof. vm_compute. repeat split; reflexivity. Qed.
